@@ -103,7 +103,8 @@ func (c16) ID() string        { return "C16" }
 func (c16) CoqModule() string { return "Check_C16" }
 func (c16) Rule() string {
 	return "CSV texts from a row grammar (plain/quoted fields, embedded separators, newlines, doubled quotes, empty fields and lines, " +
-		"ragged rows, comment lines, leading blanks, CRLF) plus malformed quoting (bare and unterminated quotes) and arbitrary bytes; " +
+		"ragged rows, comment lines, leading blanks, CRLF) plus malformed quoting (bare and unterminated quotes) and arbitrary bytes; texts beginning with a UTF-8 byte order mark " +
+		"(before an unquoted field, a quoted field, a comment line, nothing), with a truncated / doubled mark, a UTF-16/32 mark, NUL, a lone CR, line ends, non-ASCII blanks; " +
 		"option sets over Comma/Comment/LazyQuotes/TrimLeadingSpace/FieldsPerRecord/ReuseRecord/writer Comma/UseCRLF; skip counts from -1 to n+2 and huge; " +
 		"consume x 8 destination kinds, produce x 8 source kinds (value, pointer), pair x 64 kind pairs; record-table destinations fresh or " +
 		"pre-populated with (len, cap) shorter and longer than the input; typed nil pointers. Non-trivial: the parse yields >= 2 records or an " +
@@ -1095,6 +1096,9 @@ func (c16) Category(x any, y any) (string, bool) {
 	if perr {
 		parts = append(parts, "malformed")
 	}
+	if h := c16HeadClass(string(in.Text)); h != "" {
+		parts = append(parts, h)
+	}
 	last := obs.Steps[len(obs.Steps)-1]
 	parts = append(parts, "->"+last.Kind)
 	nontrivial := nrec >= 2 || perr || in.Nil || in.Elem != "" || in.PreCap > 0 || len(os) > 0
@@ -1158,6 +1162,42 @@ func c16Text(r *rand.Rand, sep string, forceRagged bool) string {
 		}
 	}
 	return sb.String()
+}
+
+// how a text may begin before its first record: byte order marks (a UTF-8 one is what spreadsheet exports start with: a
+// standard parse keeps U+FEFF as part of the first field, and a quote after it is a bare quote), truncated and doubled marks,
+// marks of the other encodings, NUL, a lone CR, line ends, blanks that are not ASCII blanks
+var c16Heads = []string{"\xEF\xBB\xBF", "\xEF\xBB\xBF", "\xEF\xBB\xBF\xEF\xBB\xBF", "\xEF\xBB\xBF ", "\xEF\xBB\xBF\n", "\xEF\xBB\xBF\r\n", "\xEF\xBB\xBF\r",
+	"\xEF\xBB", "\xEF", "\xEF\xBB\xBE", "\xBB\xBF", "\xFF\xFE", "\xFE\xFF", "\xFF\xFE\x00\x00", "\x00", "\x00\x00", "\r", "\r\r", "\r\n", "\n", " ", "\t",
+	"\xC2\xA0", "\xE2\x80\x8B", "\x1F\x8B"}
+
+// the texts the heads are put in front of: first field unquoted / quoted / a comment line / nothing at all / malformed
+func c16HeadBodies(sep string) []string {
+	return []string{"name" + sep + "age\nx" + sep + "1\n", "\"a\"" + sep + "b\nc" + sep + "d\n", "\"a\"\n", "#c" + sep + "1\nd" + sep + "2\n", "", "x", "\"", "\"q\"\"q\"" + sep + "z"}
+}
+
+func c16Headed(r *rand.Rand, sep string, text string) string {
+	if r.Intn(3) == 0 {
+		b := c16HeadBodies(sep)
+		text = b[r.Intn(len(b))]
+	}
+	return c16Heads[r.Intn(len(c16Heads))] + text
+}
+
+func c16HeadClass(text string) string {
+	switch {
+	case strings.HasPrefix(text, "\xEF\xBB\xBF"):
+		return "head:utf8-bom"
+	case strings.HasPrefix(text, "\xFF\xFE"), strings.HasPrefix(text, "\xFE\xFF"):
+		return "head:utf16-bom"
+	case strings.HasPrefix(text, "\x00"):
+		return "head:nul"
+	case strings.HasPrefix(text, "\r") && !strings.HasPrefix(text, "\r\n"):
+		return "head:lone-cr"
+	case strings.HasPrefix(text, "\xEF"), strings.HasPrefix(text, "\xBB"):
+		return "head:bom-lookalike"
+	}
+	return ""
 }
 
 func c16BadText(r *rand.Rand, sep string) string {
@@ -1234,6 +1274,9 @@ func c16GenHist(r *rand.Rand) c16In {
 		if r.Intn(8) == 0 {
 			return c16BadText(r, sep)
 		}
+		if r.Intn(8) == 0 {
+			return c16Headed(r, sep, c16Text(r, sep, false))
+		}
 		return c16Text(r, sep, o.FPR < 0 && r.Intn(2) == 0)
 	}
 	first := text()
@@ -1309,6 +1352,9 @@ func (c16) Gen(r *rand.Rand, tier string, i int) any {
 	} else {
 		text = c16Text(r, sep, o.FPR < 0 && r.Intn(2) == 0)
 	}
+	if r.Intn(6) == 0 {
+		text = c16Headed(r, sep, text)
+	}
 	o.Skip = c16GenSkip(r, o, text)
 	in := c16In{Text: Bs(text), Opts: o}
 	if r.Intn(4) == 0 {
@@ -1368,6 +1414,31 @@ func (c16) Enumerate(tier string) []any {
 			for sk := 0; sk <= 5; sk++ {
 				out = append(out, c16In{Mode: "consume", Text: Bs(text), Opts: c16Opts{Skip: sk, Reuse: sk%2 == 1}, Dst: "records", PreLen: ln, PreCap: cp})
 			}
+		}
+	}
+	// how the text begins: every head x every body, the kinds and five option sets taking turns; a UTF-8 byte order mark
+	// with every destination and source kind
+	hopts := []c16Opts{{}, {Lazy: true}, {Comment: '#'}, {Trim: true}, {Skip: 1, Reuse: true}}
+	hn := 0
+	for hi, head := range c16Heads {
+		if hi > 0 && head == c16Heads[hi-1] {
+			continue
+		}
+		for bi, body := range c16HeadBodies(",") {
+			t := Bs(head + body)
+			o := hopts[hn%len(hopts)]
+			out = append(out, c16In{Mode: "consume", Text: t, Opts: o, Dst: c16Dsts[hn%8], Chunk: hn % 4})
+			out = append(out, c16In{Mode: "produce", Text: t, Opts: o, Src: c16Srcs[hn%8], Chunk: hn % 4})
+			out = append(out, c16In{Mode: "pair", Text: t, Opts: o, Src: c16Srcs[(hn/8)%8], Dst: c16Dsts[hn%8]})
+			if hi == 0 && bi < 4 {
+				for k := 0; k < 8; k++ {
+					for _, o := range hopts[:3] {
+						out = append(out, c16In{Mode: "consume", Text: t, Opts: o, Dst: c16Dsts[k]})
+						out = append(out, c16In{Mode: "produce", Text: t, Opts: o, Src: c16Srcs[k]})
+					}
+				}
+			}
+			hn++
 		}
 	}
 	for _, e := range []string{"named", "mystr", "row"} {
